@@ -212,6 +212,12 @@ fn dispatch_regen(engine: &str, prof: &Profile, seed: u64, run: u64) -> Agg {
 }
 
 fn start_watchdog(check_prop: u8) {
+    // VERIF_WATCHDOG_SECS overrides the limit (0 disables it; used for the optional smoke run under an
+    // interpreter that is ~100x slower)
+    let limit: u64 = std::env::var("VERIF_WATCHDOG_SECS").ok().and_then(|s| s.parse().ok()).unwrap_or(WATCHDOG_SECS);
+    if limit == 0 {
+        return;
+    }
     std::thread::spawn(move || {
         let mut last = vec![(0u64, Instant::now()); MAX_WORKERS];
         loop {
@@ -223,7 +229,7 @@ fn start_watchdog(check_prop: u8) {
                     last[slot] = (hb, Instant::now());
                     continue;
                 }
-                if last[slot].1.elapsed().as_secs() >= WATCHDOG_SECS {
+                if last[slot].1.elapsed().as_secs() >= limit {
                     let (engine, focus, seed, run, chaos, tier) = job.clone().unwrap();
                     let dir = format!("{}/replays", verif_dir());
                     let _ = std::fs::create_dir_all(&dir);
@@ -241,7 +247,7 @@ fn start_watchdog(check_prop: u8) {
                     let _ = std::fs::write(&path, j.pretty());
                     if check_prop == 17 {
                         println!("VIOLATION property=C17 replay={}", path);
-                        println!("  detail: engine {} run {} (seed {}): a call did not return for {} s", engine, run, seed, WATCHDOG_SECS);
+                        println!("  detail: engine {} run {} (seed {}): a call did not return for {} s", engine, run, seed, limit);
                         std::process::exit(1);
                     } else {
                         eprintln!(
